@@ -66,11 +66,31 @@ DRO_SUPP = ['box', 'abs', 'l2lift', 'boxdiff']
 DRO_EXPT = ['none', 'mean', 'meaneq']
 DRO_PROB = ['fixed', 'box']
 DRO_ADAPT = ['static', 'scen', 'aff', 'scen+aff']
+# programs with >= 2 second-order cones of DIFFERENT sizes whose dual takes the general SOC layout
+MIX_KINDS = ['34p', '34n', '43p', '43n']          # cone sizes in qmat order, sign of the data
+MIX_FAMS = ['detmix', 'romix', 'dromix']
+HIST_MODELS = ['lp', 'soc', 'exp', 'ro_box', 'ro_l2', 'dro_box', 'dro_l2']
+HIST_ADDS = ['row', 'bound', 'cone']
+HISTORIES = ['D,st,D', 'P,D,st,D', 'D,st,P,D', 'S,D,st,S,D', 'D,D,st,D', 'D,st,D,st2,D']
 
 
 def gen_cases(tier, seed):
     thorough = tier == 'thorough'
     pal = seed % 4
+    pals = range(4) if thorough else (pal,)
+    # ---- call histories: the dual after a change of the model
+    for hm in HIST_MODELS:
+        for add in HIST_ADDS:
+            for h in HISTORIES:
+                for sense in ('min', 'max'):
+                    yield {'fam': 'hist', 'model': hm, 'add': add, 'hist': h, 'sense': sense, 'pal': pal}
+    # ---- mixed-size multi-cone programs (general SOC dual layout with cones of sizes 3 and 4, both orders)
+    for p in pals:
+        for fam in MIX_FAMS:
+            for kind in MIX_KINDS:
+                for var in range(6):
+                    for sense in ('min', 'max'):
+                        yield {'fam': fam, 'kind': kind, 'var': var, 'sense': sense, 'pal': p}
     # ---- deterministic family
     for bp in itertools.product(BPS, repeat=2):
         for rw in ROWS_Q:
@@ -93,7 +113,6 @@ def gen_cases(tier, seed):
                     for sense in ('min', 'max'):
                         yield {'fam': 'det', 'bp': list(bp), 'rows': rw, 'cone': cone, 'sense': sense, 'pal': pal}
     # ---- ro family
-    pals = range(4) if thorough else (pal,)
     for p in pals:
         for st in RO_SETS:
             for rule in RO_RULES:
@@ -122,7 +141,9 @@ def bounds(tier):
     b = {'n_variables': 2, 'bound_patterns': len(BPS), 'row_mixes': len(ROWS_Q), 'cone_kinds': len(CONES),
          'ro_specs': len(RO_SETS) * len(RO_RULES) * len(RO_XBP) * len(RO_FORMS) * 2,
          'dro_specs': len(DRO_SUPP) * len(DRO_EXPT) * len(DRO_PROB) * len(DRO_ADAPT) * 2,
-         'palettes_ro_dro': 4 if th else 1}
+         'palettes_ro_dro': 4 if th else 1,
+         'mixed_size_multi_cone_specs': len(MIX_FAMS) * len(MIX_KINDS) * 6 * 2,
+         'history_specs': len(HIST_MODELS) * len(HIST_ADDS) * len(HISTORIES) * 2}
     if th:
         b.update({'n2_all_row_mixes': '%d ordered mixes x %d cone kinds' % (len(ROWS_T), len(CONES_T2)),
                   'n3': '10^3 bound assignments x 3 row mixes x %d cone kinds' % len(CONES_T3)})
@@ -262,6 +283,30 @@ def build_det(case, fixed_as_rows=False):
                     m.st(1.0 * q[k] <= 2 * TBOX)
                     m.st(-1.0 * q[k] <= 2 * TBOX)
             ops += 6
+        elif part.startswith('ccmix'):
+            # two cones of sizes 3 and 4 on user variables (box rows -> general SOC dual layout), both qmat orders,
+            # both signs of the linking data
+            order, sg = part[5:7], (1.0 if part[7] == 'p' else -1.0)
+            q = m.dvar(10)
+            cone_a = lp.ConeConstr(m.rc_model, q, [1, 2], q, 0)
+            cone_b = lp.ConeConstr(m.rc_model, q, [4, 5, 6], q, 3)
+            cone_c = lp.ConeConstr(m.rc_model, q, [8, 9], q, 7)
+            # three cones, sizes [3,4,3] or [4,3,3]: the head positions are not multiples of the first size
+            for cc in ((cone_a, cone_b, cone_c) if order == '34' else (cone_b, cone_a, cone_c)):
+                m.st(cc)
+            m.st(q[0] >= 0, q[3] >= 0, q[7] >= 0)
+            m.st(sg * q[8] - 0.25 * x[0] - 0.25 * w == 0.5)
+            m.st(sg * q[9] + 0.5 * x[n - 1] == 0.25)
+            m.st(sg * q[1] - x[0] + 0.5 * w == 0.25)
+            m.st(sg * q[2] - 0.5 * x[n - 1] == -0.5)
+            m.st(sg * q[4] - 0.5 * x[0] == 0.25)
+            m.st(sg * q[5] + 0.25 * w == 0.5)
+            m.st(sg * q[6] + 0.5 * x[n - 1] - 0.25 * x[0] == -0.25)
+            m.st(1.0 * q[0] + 0.5 * q[3] + 0.75 * q[7] - t <= 0)
+            for k in range(10):
+                m.st(1.0 * q[k] <= 2 * TBOX)
+                m.st(-1.0 * q[k] <= 2 * TBOX)
+            ops += 24
         elif part == 'none':
             pass
         else:
@@ -281,7 +326,8 @@ def build_det(case, fixed_as_rows=False):
             obj = obj - extra
         m.max(obj)
     ops += 1
-    info = {'x_first': x.first, 'w_idx': w.first, 'fin': fin, 'rows': rows, 'n': n, 'ops': ops}
+    info = {'x_first': x.first, 'w_idx': w.first, 'fin': fin, 'rows': rows, 'n': n, 'ops': ops,
+            'vars': (x, w), 'centre': (x0, w0)}
     return m, info
 
 
@@ -374,7 +420,97 @@ def build_ro(case):
         m.st(1.0 * v <= 4 * RBOX, -1.0 * v <= 4 * RBOX)
         ops += 4
     ops += 5
-    return m, {'ops': ops}
+    return m, {'ops': ops, 'vars': (x, z)}
+
+
+def build_romix(case):
+    """Lead's template: a deterministic norm of one dimension next to a robust row whose ellipsoidal set has another
+    dimension (and is not the unit ball), so the counterpart's dual has cones of sizes [3,4] / [4,3] in the general
+    SOC layout."""
+    import numpy as np
+    rso, ro = _rs['rso'], _rs['ro']
+    kind, var, pal = case['kind'], case['var'], case['pal']
+    a, b = (2, 3) if kind[:2] == '34' else (3, 2)
+    sg = 1.0 if kind[2] == 'p' else -1.0
+    rule = 'static' if var < 3 else 'ldr'
+    setk = ['2z', 'Az', 'zr'][var % 3]
+    r = [1.0, 0.75, 1.25, 0.5][pal]
+    m = ro.Model()
+    x = m.dvar(a)
+    v = m.dvar()
+    z = m.rvar(b)
+    if setk == '2z':
+        zs = [rso.norm(2 * z) <= r]
+    elif setk == 'Az':
+        A = np.array([[1.0, 0.5, 0.0], [0.0, 1.0, 0.5], [0.0, 0.0, 1.0]])[:b, :b]
+        zs = [rso.norm(A @ z) <= r]
+    else:
+        zs = [rso.norm(z) <= 1.5 * r]
+    k = min(a, b - 1)
+    expr = v + sg * z[b - 1]
+    for i in range(k):
+        expr = expr + z[i] * x[i]
+    ops = 8
+    if rule == 'ldr':
+        y = m.ldr()
+        y.adapt(z)
+        expr = expr + y
+        m.st((y <= 1).forall(zs), (y >= -1).forall(zs))
+        ops += 4
+    m.st((expr <= 5).forall(zs))
+    m.st((v - 0.5 * sg * z[0] + 0.25 * x[0] <= 6).forall(zs))      # second robust row: a third cone
+    m.st(rso.norm(x) <= 1)
+    m.st(1.0 * v <= 20, -1.0 * v <= 20)
+    if case['sense'] == 'max':
+        m.max(v + 0.25 * x.sum())
+    else:
+        m.min(-v - 0.25 * x.sum())
+    return m, {'ops': ops + 5, 'vars': (x, z)}
+
+
+def build_dromix(case):
+    rso, dro, E = _rs['rso'], _rs['dro'], _rs['E']
+    kind, var, pal = case['kind'], case['var'], case['pal']
+    a, b = (2, 3) if kind[:2] == '34' else (3, 2)
+    sg = 1.0 if kind[2] == 'p' else -1.0
+    adapt = ['static', 'scen', 'aff'][var % 3]
+    expt = ['none', 'mean'][var // 3]
+    rad = [0.5, 0.375, 0.75, 0.25][pal]
+    m = dro.Model(2)
+    z = m.rvar(b)
+    u = m.rvar()
+    fset = m.ambiguity()
+    zhat = [[0.5, 1.0, 0.25][:b], [1.5, 0.5, 1.25][:b]]
+    import numpy as np
+    for s_ in range(2):
+        fset[s_].suppset(rso.norm(z - np.array(zhat[s_])) <= u, u <= 2)
+    if expt == 'mean':
+        fset.exptset(E(u) <= rad, E(z) <= 1.5, E(z) >= 0.25)
+    else:
+        fset.exptset(E(u) <= rad)
+    fset.probset(m.p == 0.5)
+    x = m.dvar(a)
+    y = m.dvar()
+    ops = 12
+    if adapt in ('scen', 'aff'):
+        y.adapt(0)
+        y.adapt(1)
+        ops += 2
+    if adapt == 'aff':
+        y.adapt(z)
+        y.adapt(u)
+        ops += 2
+    k = min(a, b - 1)
+    load = sg * z[b - 1] - 1
+    for i in range(k):
+        load = load + z[i] * x[i]
+    if case['sense'] == 'min':
+        m.minsup(-0.5 * x.sum() + E(1.5 * y), fset)
+    else:
+        m.maxinf(0.5 * x.sum() - E(1.5 * y), fset)
+    m.st(y >= load, y >= 0, y <= 10)
+    m.st(rso.norm(x) <= 1.5)
+    return m, {'ops': ops + 6, 'vars': (x, z)}
 
 
 def build_dro(case):
@@ -433,7 +569,7 @@ def build_dro(case):
     m.st(y >= x - z, y >= 0, y <= 8)
     m.st(x >= 0, x <= 4)
     ops += 8
-    return m, {'ops': ops}
+    return m, {'ops': ops, 'vars': (x, z)}
 
 
 # ------------------------------------------------------------------------------------------------
@@ -545,8 +681,10 @@ def judge(m):
                     'detail': '%s: v_P=%.9g v_D=%.9g sum=%.3g tol=%.1g' % (iface, valp, vald, valp + vald, tol)}
         passed.append(iface)
     if passed:
+        sizes = [len(q) for q in (getattr(fP, 'qmat', []) or [])]
         res.update(verdict='pass', outcome='%s P+D=0 via %s' % (kind, '+'.join(passed)), xP=xP0, vP=vP0,
-                   nD=fD.linear.shape[1], ndq=len(getattr(fD, 'qmat', [])), ndx=len(getattr(fD, 'xmat', [])))
+                   nD=fD.linear.shape[1], ndq=len(getattr(fD, 'qmat', [])), ndx=len(getattr(fD, 'xmat', [])),
+                   sizes=sizes, general=bool(sizes) and fD.linear.shape[0] == fP.linear.shape[1])
     else:
         res['outcome'] = '%s inconclusive: %s' % (kind, ';'.join(notes))
     return res
@@ -559,9 +697,21 @@ def _bpsig(bp):
 def run_case(case):
     import numpy as np
     fam = case['fam']
+    if fam == 'hist':
+        return run_hist(case)
     if fam == 'det':
         m, info = build_det(case)
         tag = 'det|%s' % case['cone']
+    elif fam == 'detmix':
+        c2 = dict(case, bp=list(RO_XBP[case['var']]), rows='LG', cone='ccmix' + case['kind'])
+        m, info = build_det(c2)
+        tag = 'detmix|%s' % case['kind']
+    elif fam == 'romix':
+        m, info = build_romix(case)
+        tag = 'romix|%s|var%d' % (case['kind'], case['var'])
+    elif fam == 'dromix':
+        m, info = build_dromix(case)
+        tag = 'dromix|%s|var%d' % (case['kind'], case['var'])
     elif fam == 'ro':
         m, info = build_ro(case)
         tag = 'ro|%s|%s|%s' % (case['set'], case['rule'], case['form'])
@@ -609,7 +759,139 @@ def run_case(case):
                 act = True
         nt = nt and act
         oc = r['outcome'] + (' layout:q%d/x%d' % (r['ndq'], r['ndx']))
+    elif fam in MIX_FAMS:
+        # the point of the family: >= 2 cones of different sizes dualised by the general layout
+        mixed = len(set(r['sizes'])) >= 2 and r['general']
+        nt = nt and mixed
+        oc = '%s %s sizes=%s %s' % (fam, r['outcome'], r['sizes'][:6], 'general-layout' if r['general'] else 'compact')
     else:
         nt = nt and r['nD'] > 4
         oc = r['outcome']
     return {'status': 'pass', 'nontrivial': bool(nt), 'ops': ops, 'outcome': oc}
+
+
+# ------------------------------------------------------------------------------------------------
+# call histories: the dual must follow a change of the model
+# ------------------------------------------------------------------------------------------------
+def _hist_base(case):
+    hm = case['model']
+    base = {'sense': case['sense'], 'pal': case['pal']}
+    if hm in ('lp', 'soc', 'exp'):
+        c = dict(base, fam='det', bp=['lo', 'both'], rows='LG', cone={'lp': 'none', 'soc': 'norm', 'exp': 'exp'}[hm])
+        m, info = build_det(c)
+        return m, info, 'det'
+    if hm.startswith('ro_'):
+        c = dict(base, fam='ro', set={'ro_box': 'boxB', 'ro_l2': 'l2'}[hm], rule='ldr', xbp=['ge0', 'ge0'], form='mm')
+        m, info = build_ro(c)
+        return m, info, 'ro'
+    c = dict(base, fam='dro', supp={'dro_box': 'box', 'dro_l2': 'l2lift'}[hm], expt='mean', prob='fixed',
+             adapt='scen+aff')
+    m, info = build_dro(c)
+    return m, info, 'dro'
+
+
+def _hist_extra(m, info, front, case, which):
+    """State the extra constraint number `which` (0 = `add` kind of the case, 1 = the second change 'st2')."""
+    import numpy as np
+    rso = _rs['rso']
+    add = case['add'] if which == 0 else 'st2'
+    mn = case['sense'] == 'min'
+    if front == 'det':
+        x, w = info['vars']
+        x0, w0 = info['centre']
+        if add == 'row':
+            m.st((x[1] - x[0] <= x0[1] - x0[0] + 0.25) if mn else (x[0] - x[1] <= x0[0] - x0[1] + 0.25))
+        elif add == 'bound':
+            m.st((x[1] <= x0[1] + 0.25) if mn else (x[1] >= x0[1] - 0.25))
+        elif add == 'cone':
+            m.st(rso.norm(x - np.array(x0)) <= 0.5)
+        else:
+            m.st((-1.0 * w <= -w0 + 0.125) if mn else (1.0 * w <= w0 + 0.125))
+    elif front == 'ro':
+        x, z = info['vars']
+        if add == 'row':
+            m.st(x[0] + z[0] * x[1] >= 0.75)            # a robust row (default set of the objective)
+        elif add == 'bound':
+            m.st(x[0] >= 0.5)
+        elif add == 'cone':
+            m.st(rso.norm(x - 2.0) <= 1.6)
+        else:
+            m.st(1.0 * x[1] >= 0.625)
+    else:
+        x, z = info['vars']
+        if add == 'row':
+            m.st(1.0 * x >= 0.5)
+        elif add == 'bound':
+            m.st(x >= 0.5)
+        elif add == 'cone':
+            m.st(rso.square(x - 1) <= 0.25)
+        else:
+            m.st(1.0 * x >= 0.75)
+
+
+def _fresh_value(case, n_extra):
+    """ECOS optimum of do_math() of a FRESH build of the model as declared after n_extra changes."""
+    cm = _rs['cm']
+    m, info, front = _hist_base(case)
+    for k in range(n_extra):
+        _hist_extra(m, info, front, case, k)
+    v, val, _, _ = cm.solve_formula(m.do_math(), 'eco')
+    return val if v == 'optimal' else None
+
+
+def run_hist(case):
+    cm = _rs['cm']
+    tag = 'hist|%s|%s|%s' % (case['model'], case['add'], case['hist'])
+    steps = case['hist'].split(',')
+    n_changes = sum(1 for s_ in steps if s_.startswith('st'))
+    refs = [_fresh_value(case, k) for k in range(n_changes + 1)]
+    if any(r is None for r in refs):
+        return {'status': 'vacuous', 'ops': 10, 'outcome': 'hist: a fresh build is not solved to optimality'}
+    m, info, front = _hist_base(case)
+    ops = info['ops']
+    cur = 0
+    checked = 0
+    kind = 'exp' if case['model'] == 'exp' else 'soc'
+    tol = lambda v: _tol('eco', kind) * (1 + abs(v))     # noqa
+    for k, st in enumerate(steps):
+        ops += 1
+        what = None
+        if st.startswith('st'):
+            _hist_extra(m, info, front, case, cur)
+            cur += 1
+            continue
+        ref = refs[cur]
+        try:
+            f_step = m.do_math(primal=False) if st == 'D' else (m.do_math() if st == 'P' else None)
+        except Exception as ex:  # noqa
+            return {'status': 'violation', 'ops': ops, 'sig': '%s|step %d (%s) raises %s' % (tag, k, st,
+                                                                                        type(ex).__name__),
+                    'detail': str(ex)[:160], 'outcome': 'viol hist'}
+        if st == 'D':
+            v, val, _, raw = cm.solve_formula(f_step, 'eco')
+            if v in ('infeasible', 'unbounded'):
+                what = 'dual %s' % v
+            elif v == 'optimal' and abs(val + ref) > tol(ref):
+                what = 'dual optimum %.8g, fresh primal optimum %.8g' % (val, ref)
+            elif v == 'optimal':
+                checked += 1
+        elif st == 'P':
+            v, val, _, raw = cm.solve_formula(f_step, 'eco')
+            if v == 'optimal' and abs(val - ref) > tol(ref):
+                what = 'primal optimum %.8g, fresh %.8g' % (val, ref)
+        else:
+            m.solve(_rs['eco'], display=False)
+            sol = getattr(m, 'solution', None)
+            if sol is not None and sol.x is not None and str(sol.status).startswith('Optimal') and \
+                    abs(sol.objval - ref) > tol(ref):
+                what = 'solve() objective %.8g, fresh %.8g' % (sol.objval, ref)
+        if what:
+            stale = cur > 0 and st in ('D', 'P') and abs((-val if st == 'D' else val) - refs[cur - 1]) <= tol(ref) \
+                and abs(refs[cur] - refs[cur - 1]) > 10 * tol(ref)
+            return {'status': 'violation', 'ops': ops,
+                    'sig': '%s|step %d (%s) %s' % (tag, k, st, 'is the program of BEFORE the change (stale cache)'
+                                                   if stale else 'differs from a fresh build of the declared model'),
+                    'detail': what, 'outcome': 'viol hist'}
+    changed = all(abs(refs[i + 1] - refs[i]) > 1e-3 for i in range(n_changes))
+    return {'status': 'pass', 'ops': ops, 'nontrivial': bool(changed and checked >= 2),
+            'outcome': 'hist ok %s duals=%d change %s the optimum' % (front, checked, 'moves' if changed else 'keeps')}
